@@ -87,6 +87,9 @@ type sBody struct {
 	wake   chan struct{}
 	ctx    context.Context
 	closes atomic.Int32
+	// net/http fills Response.Trailer when the body read reaches EOF, not before
+	pendingTrailer http.Header
+	trailer        http.Header
 }
 
 func newSBody(ctx context.Context) *sBody { return &sBody{wake: make(chan struct{}, 1), ctx: ctx} }
@@ -127,6 +130,10 @@ func (b *sBody) Read(p []byte) (int, error) {
 			return n, nil
 		}
 		if b.fin == 1 {
+			for k, vs := range b.pendingTrailer {
+				b.trailer[k] = vs
+			}
+			b.pendingTrailer = nil
 			b.mu.Unlock()
 			return 0, io.EOF
 		}
@@ -351,6 +358,7 @@ func newDxCall(r *h.Run, mode, fam string, cfg envCfg, status int, protoMajor in
 	hdr := http.Header{}
 	hdr.Set("Content-Type", cfg.contentType(false))
 	c.trailer = http.Header{}
+	c.body.trailer = c.trailer
 	resp := h.NewResponse(status, hdr, c.body, c.trailer)
 	resp.ProtoMajor, resp.ProtoMinor = protoMajor, 0
 	if protoMajor == 1 {
@@ -578,9 +586,9 @@ func (c *dxCall) feed(it dxItem) {
 			v = verdict{Kind: "err", Code: it.code}
 		}
 		term, tr := terminatorFor(c.cfg, v)
-		for k, vs := range tr {
-			c.trailer[k] = vs
-		}
+		c.body.mu.Lock()
+		c.body.pendingTrailer = tr
+		c.body.mu.Unlock()
 		c.body.push(term)
 		c.body.finish(nil)
 	case "trunc":
@@ -936,7 +944,7 @@ func dxRandom(r *h.Run, rng *h.Rng, mode, fam string, cfg envCfg, delays []strin
 	// C15: a prefix of a live call, the end of the context at a chosen kind of
 	// instant, then a suffix of further operations
 	pre := rng.Intn(7)
-	for i := 0; i < pre && !c.timedOut; i++ {
+	for i := 0; i < pre && !c.timedOut && !c.closedResp; i++ {
 		plain(rng.Chance(15))
 	}
 	k := kindOf()
